@@ -3,6 +3,7 @@ package c08
 
 import (
 	"bytes"
+	"encoding/base64"
 	"encoding/json"
 	"errors"
 	"fmt"
@@ -335,8 +336,45 @@ func Run(tier string) {
 		armrd.Run(run, "reader-machine", armrd.Config(1, 1, 8, 1, "{1, 48, 100}", 8, false, true), "", 0)
 	}
 	sizesSweep(run)
+	byteSweep(run)
 	oracle(run, rand.New(rand.NewSource(seed)))
 	run.Finish()
+}
+
+// byteSweep: every byte value at every position of a short and of a full body line (and appended to them). Whatever is
+// accepted must re-armor to exactly the text (no tolerance applies inside the body); the line classes of ArmorGen hold a
+// few representatives, a table-driven decoder can be wrong for a single character.
+func byteSweep(run *vk.Run) {
+	const begin, end = "-----BEGIN AGE ENCRYPTED FILE-----\n", "-----END AGE ENCRYPTED FILE-----\n"
+	full := base64.StdEncoding.EncodeToString(bytes.Repeat([]byte{0xa5, 0x3c, 0x0f}, 16))
+	n := 0
+	for _, body := range []string{"QUJD", "QUI=", "QQ==", full + "\nQUJD", full} {
+		for pos := 0; pos <= len(body); pos++ {
+			for c := 0; c < 256; c++ {
+				var line string
+				if pos == len(body) {
+					line = body + string([]byte{byte(c)})
+				} else {
+					if body[pos] == '\n' {
+						continue
+					}
+					line = body[:pos] + string([]byte{byte(c)}) + body[pos+1:]
+				}
+				in := []byte(begin + line + "\n" + end)
+				norm := in
+				if c == '\r' && pos == len(body) {
+					norm = []byte(begin + body + "\n" + end) // CR before LF is the documented tolerance
+				}
+				if c == '\n' {
+					continue // splits the line: line structures are the class generators' business
+				}
+				CheckRead(run, in, norm, nil, fmt.Sprintf("byte-sweep:%q/pos=%d/byte=%d", body[:4], pos, c), rd.Kinds[:2])
+				n++
+			}
+		}
+	}
+	run.Distinct("byte-sweep")
+	run.Add("byte_sweep_texts", n)
 }
 
 // sizesSweep: every length 0..200 and around multiples of 48 further out, under a few segmentations.
